@@ -297,6 +297,10 @@ package protocol
 //@   // critical section of the session's output lock (C13: consecutive, never interleaved with
 //@   // another allocation)
 //@   assert_at "s.nextSend.Add(1)": [C13] ghost(held_Session_oLock) == mathint(s)
+//@   // content (C01): the k-th segment queued carries exactly the k-th fragmentSize bytes of the
+//@   // chunk (the last one the remainder): it starts in b where the previous fragment ended, and
+//@   // its payload is a copy of those bytes
+//@   assert_call segmentTree.Insert: [C01] len(arg0.payload) == min(fragmentSize, len(ptr)) && forall(j, 0, len(arg0.payload), arg0.payload[j] == ptr[j]) && baseof(ptr) == baseof(b) && offsetof(ptr) == offsetof(b) + (mathint(nFragment) - 1 - mathint(i)) * mathint(fragmentSize)
 //@   loop 1:
 //@     invariant s.nextSend.v == old(s.nextSend.v) && s.nextRecv.v == old(s.nextRecv.v) && ghost(sq) == s.sendQueue
 //@     invariant nFragment >= 1 && fragmentSize >= 1 && fragmentSize <= 65535
@@ -305,6 +309,7 @@ package protocol
 //@     invariant ghost(sqrem) >= 1 + mathint(i) + 1 && ghost(sq) == s.sendQueue && s.nextRecv.v == old(s.nextRecv.v)
 //@     invariant mathint(s.nextSend.v) == (mathint(old(s.nextSend.v)) + mathint(nFragment) - 1 - mathint(i)) % 4294967296
 //@     invariant ghost(held_Session_oLock) == mathint(s)
+//@     invariant baseof(ptr) == baseof(b) && mathint(len(ptr)) == max(0, mathint(len(b)) - (mathint(nFragment) - 1 - mathint(i)) * mathint(fragmentSize)) && offsetof(ptr) == offsetof(b) + mathint(len(b)) - mathint(len(ptr))
 //@   loop 3:
 //@     invariant ghost(sqrem) >= 1 && s.nextRecv.v == old(s.nextRecv.v)
 //@     invariant mathint(s.nextSend.v) == (mathint(old(s.nextSend.v)) + mathint(nFragment)) % 4294967296
@@ -323,12 +328,16 @@ package protocol
 //@   assert_call segmentTree.Insert: [C13 C01] len(arg0.payload) == 0 || baseof(arg0.payload) != baseof(b)
 //@   // the open request takes its sequence number under the session's output lock (C13)
 //@   assert_at "s.nextSend.Add(1)": [C13] ghost(held_Session_oLock) == mathint(s)
+//@   // chunking (C01): every chunk handed on is the next piece of the caller's buffer - it starts
+//@   // where the bytes already accepted end, nothing skipped, nothing handed on twice
+//@   assert_call Session.writeChunk: [C01] baseof(arg0) == baseof(old(b)) && offsetof(arg0) == offsetof(old(b)) + mathint(n) && len(arg0) >= 1 && n + len(arg0) <= old(len(b))
 //@   ensures [C19] !old(s.isClient) && old(s.downloadBytes) != nil ==> ghost(added) == old(ghost(added)) + mathint(n)
 //@   ensures [C19] !old(s.isClient) && old(s.downloadBytes) == nil ==> ghost(added) == old(ghost(added))
 //@   loop 1:
 //@     invariant 0 <= n && n + len(b) == old(len(b))
 //@     invariant ghost(added) == old(ghost(added))
 //@     invariant s.isClient == old(s.isClient)
+//@     invariant baseof(b) == baseof(old(b)) && offsetof(b) == offsetof(old(b)) + mathint(n)
 //@     invariant s.downloadBytes == old(s.downloadBytes)
 //@
 //@ // Close at its sequence position (C03): a session is shut down in response to the peer's
@@ -369,6 +378,29 @@ package protocol
 //@   assert_at "closeRequestSeq := s.nextSend.Load()": [C13] ghost(held_Session_oLock) == mathint(s)
 //@   assert_at "s.nextSend.Add(1)": [C13] ghost(held_Session_oLock) == mathint(s) && closeRequestSeq == s.nextSend.v
 //@   assert_call Session.output: [C03] ghost(held_Session_oLock) == mathint(s)
+//@
+//@ func (s *Session) waitForRecvQueueSpace() (ok bool)
+//@   trusted waits (select on channels, sleeps) until the receive queue has room or the session closes; writes nothing
+//@
+//@ // The open response takes its sequence number under the output lock as well (C13).
+//@ // Refusal (C19): when the quota check refuses the user, the session is given the quota
+//@ // status and closed; no open response is queued for it and it never becomes established.
+//@ func (s *Session) inputData(seg *segment) (err error)
+//@   property C13 C19
+//@   mode int
+//@   partial
+//@   posts_only
+//@   noframe
+//@   may_panic
+//@   requires s != nil && wfSegMeta(seg)
+//@   assert_at "s.nextSend.Add(1)": [C13] ghost(held_Session_oLock) == mathint(s)
+//@   ghost_at "if userName := s.UserName()": ghost(quotares) = 0
+//@   ghost_call Session.checkQuota: ghost(quotares) = ite(result0, 1, 2)
+//@   assert_at "s.nextSend.Add(1)": [C19] ghost(quotares) != 2
+//@   assert_call Session.forwardStateTo: [C19] ghost(quotares) != 2
+//@   assert_call Session.Close: [C19] ghost(quotares) == 2 ==> s.status == statusQuotaExhausted
+//@   loop 1:
+//@     invariant true
 //@
 //@ // The TCP output loop drains the send queue and writes each segment while holding the
 //@ // session's output lock, from the first segment to the empty queue: nothing that takes the
